@@ -177,6 +177,22 @@ impl Run {
         if unknown.len() > shown {
             println!("  ... and {} more distinct violations", unknown.len() - shown);
         }
+        if !unknown.is_empty() {
+            let mut per: BTreeMap<String, (usize, String)> = BTreeMap::new();
+            for v in unknown.iter() {
+                let e = per.entry(v.clause.clone()).or_insert((0, v.shape.clone()));
+                e.0 += 1;
+            }
+            for (c, (n, s)) in per.iter() {
+                let s: String = s.chars().take(160).collect();
+                println!("  unlisted clause {}: {} distinct shape(s), shortest: {}", c, n, s);
+            }
+            if std::env::var("NUNMC_ALL").is_ok() {
+                for v in unknown.iter() {
+                    println!("  ALL {} | {} | {}", v.clause, v.shape.chars().take(300).collect::<String>(), v.detail.chars().take(600).collect::<String>());
+                }
+            }
+        }
         let wall = self.start.elapsed().as_secs_f64();
         self.coverage
             .insert("known_findings_hit".into(), json!(known_hits.keys().collect::<Vec<_>>()));
